@@ -5,6 +5,9 @@
 -/
 import BlocV.Model.Plugin
 import BlocV.Proofs.Lemmas.Handle
+import BlocV.Proofs.Lemmas.Method
+import BlocV.Proofs.Lemmas.Refine
+import BlocV.Model.ObjProg
 
 set_option linter.unusedSimpArgs false
 set_option linter.unusedVariables false
@@ -269,6 +272,284 @@ example : endsWith failedCallOps true 1 [1] = true := by decide
 example : endsWith twoRootsOps true 2 [1, 1] = true := by decide
 /-- not vacuous the other way either: while the root is live the object held by the cached runtime context is not destroyed -/
 example : endsWith (failedCallOps.take 5) false 1 [0] = true := by decide
+
+
+/-! ### modules, receiver check, arguments, constructor failures (part M of the model) -/
+section PartM
+open BlocV.Plugin.M BlocV.Proofs.Method
+
+/-- **method_on_live_matching_object.** After ANY history of module-level operations (constructions of objects of any
+modules, failing constructors, every store-level operation — copies, clears, moves, calls' runtime contexts, release of
+contexts —, method calls compiled for any module on any value), every execution of a method the modules have seen was
+on an object that had been created and not yet destroyed at that moment (the `pos` events before it contain its
+`create` and no `destroy`), and the object belongs to the module whose method it is. The receiver check of
+`MemberMETHODExpression::value` is `mstep … (.method …)`: `receiver_check` below says what it does. -/
+theorem method_on_live_matching_object (ops : List MOp) (s : MState) (h : mrun MState.init ops = .ok s)
+    (c : Call) (hc : c ∈ s.calls) :
+    c.pos ≤ s.s.h.log.length ∧ Ev.create c.o ∈ s.s.h.log.take c.pos ∧ Ev.destroy c.o ∉ s.s.h.log.take c.pos ∧
+    s.modOf[c.o]? = some c.m :=
+  (mrun_inv minv_init h).calls c hc
+
+/-- a history in which a method of module 1 is tried on an object of module 0 (refused), a method of module 0 runs on
+it, the object is destroyed and a later object of module 1 gets its call -/
+def methOps : List MOp :=
+  [.store .newCtx, .construct 0 0, .method 0 1 "id" [], .method 0 0 "id" [], .store (.clone 0 0), .store (.clear 0),
+   .method 1 0 "peer" ["O:vmod#1"], .store (.clear 1), .constructFail 0 1, .construct 0 1, .method 2 1 "id" [], .store (.release 0)]
+
+example : ∃ s, mrun MState.init methOps = .ok s ∧
+    s.calls = [⟨0, 0, 1, "id", []⟩, ⟨0, 0, 1, "peer", ["O:vmod#1"]⟩, ⟨1, 1, 3, "id", []⟩] ∧ s.refused = 1 ∧ s.failed = 1 ∧
+    s.modOf = [0, 1] := ⟨_, rfl, by decide⟩
+
+/-- **The receiver check** (member_complex.cpp:56-60): on a value holding a live handle of object `o`, a method compiled
+for module `m` is executed iff `o` was created by module `m`; otherwise the module is not called at all (the script gets
+the run-time error `EXC_RT_BAD_COMPLEX_S`). In both cases no handle, counter or context changes. -/
+theorem receiver_check (s : MState) (i m : Nat) (name : String) (args : List String) (o : Nat)
+    (hu : s.unloaded = false) (hl : liveSlot s.s.h i = some (.ref o)) :
+    (s.modOf[o]? = some m → mstep s (.method i m name args) = .ok { s with calls := s.calls ++ [⟨o, m, s.s.h.log.length, name, args⟩] }) ∧
+    (s.modOf[o]? ≠ some m → mstep s (.method i m name args) = .ok { s with refused := s.refused + 1 }) := by
+  constructor
+  · intro hm; simp [mstep, mstepLoaded, hu, hl, hm]
+  · intro hm; simp [mstep, mstepLoaded, hu, hl, hm]
+
+example : ∃ s, mrun MState.init (methOps.take 2) = .ok s ∧ s.unloaded = false ∧ liveSlot s.s.h 0 = some (.ref 0) ∧ s.modOf[0]? ≠ some 1 :=
+  ⟨_, rfl, by decide⟩
+
+/-- **args_passed_verbatim.** One method-call expression of the script makes the module see at most one call, and that
+call carries exactly the method name and the argument list of the expression, on exactly the object the receiver value
+holds; nothing else changes (a method call by itself creates and destroys nothing). -/
+theorem args_passed_verbatim (s s' : MState) (i m : Nat) (name : String) (args : List String)
+    (hu : s.unloaded = false) (h : mstep s (.method i m name args) = .ok s') :
+    s'.s = s.s ∧ s'.modOf = s.modOf ∧
+    ((s'.calls = s.calls ∧ s'.refused = s.refused + 1) ∨
+     (∃ o, liveSlot s.s.h i = some (.ref o) ∧ s'.calls = s.calls ++ [⟨o, m, s.s.h.log.length, name, args⟩] ∧ s'.refused = s.refused)) := by
+  unfold mstep at h
+  rw [hu] at h
+  simp only [Bool.false_eq_true, ↓reduceIte, mstepLoaded] at h
+  split at h
+  · rename_i o hl
+    split at h
+    · injection h with h; subst h
+      exact ⟨rfl, rfl, Or.inr ⟨o, hl, rfl, rfl⟩⟩
+    · injection h with h; subst h
+      exact ⟨rfl, rfl, Or.inl ⟨rfl, rfl⟩⟩
+  · cases h
+  · cases h
+
+example : ∃ s s', mrun MState.init (methOps.take 6) = .ok s ∧ s.unloaded = false ∧ mstep s (.method 1 0 "peer" ["O:vmod#1"]) = .ok s' ∧
+    s'.calls = s.calls ++ [⟨0, 0, 1, "peer", ["O:vmod#1"]⟩] := ⟨_, _, rfl, rfl, rfl, by decide⟩
+
+/-- the constructor calls of a history that produced an object / that failed -/
+def ctorOk : MOp → Bool
+  | .construct _ _ => true
+  | _ => false
+def ctorFailed : MOp → Bool
+  | .constructFail _ _ => true
+  | _ => false
+
+def isDeinit : MOp → Bool
+  | .deinit => true
+  | _ => false
+
+/-- while the modules stay loaded (no `deinit` in the history) the objects are exactly the successful constructor calls -/
+theorem mrun_counts {ops : List MOp} {s s' : MState} (hm : MInv s) (hu : s.unloaded = false)
+    (hnd : ∀ op ∈ ops, isDeinit op = false) (h : mrun s ops = .ok s') :
+    s'.s.h.nobj = s.s.h.nobj + (ops.filter ctorOk).length ∧ s'.failed = s.failed + (ops.filter ctorFailed).length ∧
+    s'.unloaded = false := by
+  induction ops generalizing s with
+  | nil => simp only [mrun] at h; injection h with h; subst h; simp [hu]
+  | cons op rest ih =>
+    simp only [mrun] at h
+    split at h
+    · rename_i s1 h1
+      have hm1 := mstep_inv hm op h1
+      unfold mstep at h1
+      rw [hu] at h1
+      simp only [Bool.false_eq_true, ↓reduceIte] at h1
+      have hstep : s1.s.h.nobj = s.s.h.nobj + (if ctorOk op then 1 else 0) ∧ s1.failed = s.failed + (if ctorFailed op then 1 else 0) ∧
+          s1.unloaded = false := by
+        cases op with
+        | deinit => have := hnd .deinit (List.mem_cons_self ..); simp [isDeinit] at this
+        | store op =>
+          simp only [mstepLoaded] at h1
+          split at h1
+          · cases h1
+          · rename_i hnc
+            split at h1
+            · rename_i s2 hs; injection h1 with h1; subst h1
+              have := (sstep_log hm.inv hm.log op (by simpa using hnc) hs).2.2.nobj
+              simp [ctorOk, ctorFailed, this, hu]
+            · cases h1
+        | construct k m =>
+          simp only [mstepLoaded] at h1
+          split at h1
+          · rename_i s2 hs; injection h1 with h1; subst h1
+            have := (construct_log hm.inv hm.log hs).2.2.2
+            simp [ctorOk, ctorFailed, this, hu]
+          · cases h1
+        | constructFail k m =>
+          simp only [mstepLoaded] at h1
+          split at h1
+          · injection h1 with h1; subst h1; simp [ctorOk, ctorFailed, hu]
+          · cases h1
+        | method i m name args =>
+          simp only [mstepLoaded] at h1
+          split at h1
+          · split at h1 <;> (injection h1 with h1; subst h1; simp [ctorOk, ctorFailed, hu])
+          · cases h1
+          · cases h1
+      obtain ⟨a, b, c⟩ := ih hm1 hstep.2.2 (fun o ho => hnd o (List.mem_cons_of_mem _ ho)) h
+      simp only [List.filter_cons]
+      refine ⟨?_, ?_, c⟩
+      · rw [a, hstep.1]; split <;> simp <;> omega
+      · rw [b, hstep.2.1]; split <;> simp <;> omega
+    · cases h
+
+/-- **destroy_iff_created.** For every history: an object exists exactly for every constructor call that SUCCEEDED — a
+constructor that returns nothing or raises creates no object, has no handle and will never meet the destructor
+(`failed` only counts it; exact while the modules stay loaded: after `bloc_deinit_plugins` EVERY constructor call fails); the
+module's destructor is called only for objects that were created, at most once each;
+and once every context is released, exactly once for each: the `create` and `destroy` events of the log pair up. -/
+theorem destroy_iff_created (ops : List MOp) (s : MState) (h : mrun MState.init ops = .ok s) :
+    ((∀ op ∈ ops, isDeinit op = false) → s.s.h.nobj = (ops.filter ctorOk).length ∧ s.failed = (ops.filter ctorFailed).length) ∧
+    (∀ o, Ev.create o ∈ s.s.h.log ↔ o < s.s.h.nobj) ∧
+    (∀ o, Ev.destroy o ∈ s.s.h.log → Ev.create o ∈ s.s.h.log) ∧
+    (∀ o, s.s.h.log.count (Ev.destroy o) ≤ 1) ∧
+    (S.allReleased s.s = true → ∀ o, Ev.create o ∈ s.s.h.log → s.s.h.log.count (Ev.destroy o) = 1) := by
+  have hm := mrun_inv minv_init h
+  obtain ⟨sops, hs⟩ : ∃ sops, S.srun S.SState.init sops = .ok s.s := mrun_srun h
+  refine ⟨fun hnd => by
+            have hc := mrun_counts minv_init rfl hnd h
+            exact ⟨by simpa [MState.init, S.SState.init, HState.init] using hc.1, by simpa [MState.init] using hc.2.1⟩,
+          fun o => ⟨hm.log.createdOnly o, hm.log.created o⟩,
+          fun o hd => hm.log.created o (hm.log.destroyed o hd).2, ?_, ?_⟩
+  · intro o
+    by_cases ho : o < s.s.h.nobj
+    · rw [hm.log.destroyCount o ho]; exact (store_destroy_exactly _ _ hs o ho).1
+    · have : s.s.h.log.count (Ev.destroy o) = 0 := by
+        apply List.count_eq_zero.mpr
+        intro hd; exact ho (hm.log.destroyed o hd).2
+      omega
+  · intro hr o hcre
+    have ho := hm.log.createdOnly o hcre
+    rw [hm.log.destroyCount o ho]
+    exact (no_leak_at_quiescence_ctx _ _ hs hr).2 o ho
+
+example : ∃ s, mrun MState.init methOps = .ok s ∧ S.allReleased s.s = true ∧ s.s.h.nobj = 2 ∧ s.failed = 1 ∧
+    s.s.h.log = [.create 0, .destroy 0, .create 1, .destroy 1] := ⟨_, rfl, by decide⟩
+
+/-! #### `bloc_deinit_plugins` -/
+
+/-- **deinit_after_release_safe.** Once no handle is left (every context that held objects was released — the use the
+header documents: "call it on program exit"), unloading the modules is harmless: whatever the host and old executables
+do afterwards, no operation calls through the deleted module instance, and no handle ever appears again (every
+constructor call fails). -/
+theorem deinit_after_release_safe (s : MState) (hq : quiescent s.s.h = true) (hu : s.unloaded = true) (ops : List MOp) :
+    mrun s ops ≠ .error .nullDeref ∧ ∀ s', mrun s ops = .ok s' → quiescent s'.s.h = true ∧ s'.unloaded = true :=
+  mrun_unloaded_quiescent hq hu ops
+
+/-- … and the full statement "unloading is always harmless" is FALSE for the code: with an object still referenced,
+the release that follows calls `destroyObject` through a null module instance (finding
+C17.deinit_with_live_objects_null_call; the same four steps crash the library: probe case `dq3`, UBSan member call on
+null pointer). The documented order is fine. -/
+def mrunErr (ops : List MOp) : Option HErr :=
+  match mrun MState.init ops with
+  | .error e => some e
+  | .ok _ => none
+
+example : mrunErr [.store .newCtx, .construct 0 0, .deinit, .store (.release 0)] = some .nullDeref := by decide
+example : mrunErr [.store .newCtx, .construct 0 0, .deinit, .method 0 0 "id" []] = some .nullDeref := by decide
+example : mrunErr [.store .newCtx, .construct 0 0, .store (.release 0), .deinit] = none := by decide
+example : ∃ s, mrun MState.init [.store .newCtx, .construct 0 0, .store (.release 0), .deinit, .store .newCtx, .construct 1 0] = .ok s ∧
+    quiescent s.s.h = true ∧ s.unloaded = true ∧ s.failed = 1 ∧ s.s.h.log = [.create 0, .destroy 0] := ⟨_, rfl, by decide⟩
+
+end PartM
+
+
+/-! ### the program level refines the store level -/
+section Refinement
+open BlocV.ObjProg BlocV.Proofs.Refine
+
+/-- **objprog_refines_store.** Whatever one instruction of the object language (Model/ObjProg.lean: constructor, copy,
+typed null, `self`, `spawn`, `id`, `peer`, table construction / `put` / `at`, temporary, call, call whose argument
+raises, return, raise, begin…exception, loop — with every nesting and every call depth `fuel` allows), a block, a loop
+or a call does to the store, it does through a SEQUENCE OF STORE-LEVEL OPERATIONS: there is a list of `SOp`s that takes
+the store before to the store after. Also on every error exit (run-time error, uncaught exception, argument that
+raises, model hazard). So every theorem about ALL `SOp` histories is a theorem about all programs. (Before: "by
+construction".) -/
+theorem objprog_refines_store (funcs : List Func) (root fuel : Nat) :
+    (∀ ins st fr, ∃ ops, S.srun st.s ops = .ok (exec funcs root fuel ins st fr).1.s) ∧
+    (∀ is st fr, ∃ ops, S.srun st.s ops = .ok (execList funcs root fuel is st fr).1.s) ∧
+    (∀ n body st fr, ∃ ops, S.srun st.s ops = .ok (execLoop funcs root fuel n body st fr).1.s) ∧
+    (∀ x f args thr st fr, ∃ ops, S.srun st.s ops = .ok (doCall funcs root fuel x f args thr st fr).1.s) :=
+  exec_refines funcs root fuel
+
+/-- a program on which the statement is not trivial: an object, a copy, a call that returns its parameter, a temporary —
+the store after it is reached by store-level operations and holds 2 objects -/
+def demoFuncs : List Func := [⟨"H", 1, [.ret "P1"]⟩]
+def demoProg : List Instr := [.new "A" 1, .cp "B" "A", .call "C" "H" ["A"], .tmp 3]
+def demoSt : St := { s := { S.SState.init with ctxs := [.live], root := [0] }, evs := [], cache := [] }
+
+/- (Concrete runs of `exec` are not evaluated here by `decide`: the event strings make kernel evaluation of a whole
+program very slow. The compiled model runs 500+ generated programs per check run against the library: driver command `obj`.) -/
+example : ∃ ops, S.srun demoSt.s ops = .ok (execList demoFuncs 0 8 demoProg demoSt ⟨0, []⟩).1.s :=
+  (objprog_refines_store demoFuncs 0 8).2.1 demoProg demoSt ⟨0, []⟩
+
+/-- **Program-level lifetime theorem** (corollary of the refinement and of `store_destroy_exactly` /
+`no_leak_at_quiescence_ctx`): start from any store the host can have produced, run ANY program, then let the host do
+anything (run more programs, clone, purge, free: any `SOp`s). No object is ever destroyed twice, an object is destroyed
+iff no live handle shares it, and once every context is released every object ever created — by this program, before
+it or after it — has been handed to its module's destructor exactly once. -/
+theorem objprog_lifetime (funcs : List Func) (root fuel : Nat) (prog : List Instr) (st : St) (fr : Frame)
+    (pre post : List S.SOp) (hpre : S.srun S.SState.init pre = .ok st.s) (s : S.SState)
+    (hpost : S.srun (execList funcs root fuel prog st fr).1.s post = .ok s) (o : Nat) (ho : o < s.h.nobj) :
+    s.h.destroyed o ≤ 1 ∧ (s.h.destroyed o = 1 ↔ refs s.h o = 0) ∧ (S.allReleased s = true → s.h.destroyed o = 1) := by
+  obtain ⟨mid, hmid⟩ := (exec_refines funcs root fuel).2.1 prog st fr
+  have hall : S.srun S.SState.init (pre ++ (mid ++ post)) = .ok s :=
+    BlocV.Proofs.Method.srun_append hpre (BlocV.Proofs.Method.srun_append hmid hpost)
+  have h1 := store_destroy_exactly _ s hall o ho
+  exact ⟨h1.1, h1.2.1, fun hr => (no_leak_at_quiescence_ctx _ s hall hr).2 o ho⟩
+
+/-- the hypotheses are satisfiable: `demoSt` is what `newCtx` makes of the empty store; any program; no further host step -/
+example : ∃ s, S.srun (execList demoFuncs 0 8 demoProg demoSt ⟨0, []⟩).1.s [] = .ok s := ⟨_, rfl⟩
+example : S.srun S.SState.init [.newCtx] = .ok demoSt.s := rfl
+
+/-- **Method events of the object language are on live objects.** Every instruction of Model/ObjProg.lean that emits a
+method event (`id`, `peer`, `self`, `spawn`, `fall`, `tmp`, `mthrow`, the failing argument of `callThrow`) does so under
+the guard `objOf st h = some o` on the handle `h` the receiver value holds. In any store a host and programs can have
+produced (`pre` is any `SOp` history; by `objprog_refines_store` every state inside a program is such a store) the guard
+means: `o` was created, its counter has not been deleted, the module has not been asked to destroy it, and at least the
+receiver's own handle shares it. (All objects of the object language belong to the one module `vmod`; the two-module
+receiver check is `method_on_live_matching_object` / `receiver_check` on part M.) -/
+theorem objprog_method_receiver_live (pre : List S.SOp) (st : St) (hpre : S.srun S.SState.init pre = .ok st.s)
+    (h o : Nat) (hg : objOf st h = some o) :
+    o < st.s.h.nobj ∧ st.s.h.freed o = false ∧ st.s.h.destroyed o = 0 ∧ 0 < refs st.s.h o := by
+  have hi : Inv st.s.h := srun_inv (s := S.SState.init) init_inv hpre
+  unfold objOf at hg
+  split at hg
+  · rename_i o' hs
+    injection hg with hg; subst hg
+    have hmem : Slot.ref o' ∈ st.s.h.slots := by rw [← getElem_of_some hs]; exact List.getElem_mem _
+    have hb := hi.bound o' hmem
+    have hpos : 0 < refs st.s.h o' := List.count_pos_iff.mpr hmem
+    cases hf : st.s.h.freed o' with
+    | false => exact ⟨hb, rfl, (hi.live o' hb hf).2.2, hpos⟩
+    | true => have := (hi.dead o' hb hf).1; omega
+  · cases hg
+
+example : ∃ st : St, S.srun S.SState.init [.newCtx, .construct 0] = .ok st.s ∧ objOf st 0 = some 0 :=
+  ⟨{ s := _, evs := [], cache := [] }, rfl, by decide⟩
+
+/-- the returned-value slot of a context (`Context::saveReturned` / `dropReturned`, a host that runs `return X` programs
+again and again without taking the value): replacing or dropping the kept value is a sequence of store operations too,
+so `objprog_lifetime` covers hosts that never call `bloc_drop_returned` -/
+theorem returned_slot_refines_store (st st' : St) (old r : Option V) (v : V) :
+    (saveReturned st old v = .ok (st', r) → ∃ ops, S.srun st.s ops = .ok st'.s) ∧
+    (dropReturned st old = .ok (st', r) → ∃ ops, S.srun st.s ops = .ok st'.s) :=
+  ⟨saveReturned_reach, dropReturned_reach⟩
+
+example : saveReturned demoSt none .null = .ok (demoSt, some .null) := rfl
+
+end Refinement
 
 /-! ### the hazard of the class: a moved-from handle cannot be destructed
 
